@@ -150,12 +150,26 @@ def batch_cases(draw):
     stack *= rng.uniform(0.2, 5.0, size=(n, 1, 1))
     return {"stack": stack, "t": draw(st.one_of(st.just(0.0), gen.dyadic(0.015625, 0.9375, 64))), "mt": draw(st.sampled_from([0.0, 0.0, 0.1])),
             "f": draw(st.floats(0.0, 1.0)), "which": draw(st.sampled_from(["cog", "cog", "bp", "quad", "corr"])), "padding": draw(st.integers(1, 3)),
-            "dtype": draw(st.sampled_from(["float64", "float64", "float32"]))}
+            "dtype": draw(st.sampled_from(["float64", "float64", "float32"])), "layout": draw(st.sampled_from(["C", "C", "F", "moveaxis", "strided"]))}
+
+
+def relayout(a, how):
+    """Same values and shape, different memory layout."""
+    if how == "F":
+        return np.asfortranarray(a)
+    if how == "moveaxis":
+        return np.moveaxis(np.ascontiguousarray(np.moveaxis(a, 0, -1)), -1, 0)       # (y, x, t) cube viewed as (t, y, x)
+    if how == "strided":
+        big = np.zeros(tuple(2 * s for s in a.shape), dtype=a.dtype)
+        big[::2, ::2, ::2] = a
+        return big[::2, ::2, ::2]
+    return a
 
 
 def batch_body(ctx, case):
     c = C()
-    stack, t, which = case["stack"].astype(case["dtype"]), case["t"], case["which"]
+    stack, t, which = relayout(case["stack"].astype(case["dtype"]), case.get("layout", "C")), case["t"], case["which"]
+    ctx.classes["layout_" + case.get("layout", "C")] += 1
     n, ny, nx = stack.shape
     tol = 1e-12 if case["dtype"] == "float64" else 1e-5
     differ = n >= 2 and not np.array_equal(stack[0], stack[1])
@@ -167,7 +181,7 @@ def batch_body(ctx, case):
         kw = {"threshold": t}
         if case["mt"]:
             kw["min_threshold"] = case["mt"]
-        got = c.centre_of_gravity(stack.copy(), **kw)
+        got = c.centre_of_gravity(relayout(stack.copy(), case.get("layout", "C")), **kw)
         per = np.stack([c.centre_of_gravity(stack[i].copy(), **kw) for i in range(n)], axis=1)
         ctx.close(got, per, tol, "centre_of_gravity(stack, threshold) == per frame", scale=max(ny, nx), name="cog batch")
     elif which == "bp":
@@ -175,7 +189,7 @@ def batch_body(ctx, case):
         if not (frac_ok(f, ny * nx) and int(round(f * ny * nx)) <= ny * nx):
             ctx.reject("fraction_selects_fewer_than_2_pixels")
             return
-        got = c.brightest_pixel(stack.copy(), f)
+        got = c.brightest_pixel(relayout(stack.copy(), case.get("layout", "C")), f)
         per = np.stack([c.brightest_pixel(stack[i].copy(), f) for i in range(n)], axis=1)
         ctx.close(got, per, tol, "brightest_pixel(stack) == per frame", scale=max(ny, nx), name="bp batch")
     elif which == "quad":
@@ -186,7 +200,7 @@ def batch_body(ctx, case):
     else:
         ref = stack[0].copy()
         p = case["padding"]
-        got = c.correlation_centroid(stack.copy(), ref.copy(), threshold=t, padding=p)
+        got = c.correlation_centroid(relayout(stack.copy(), case.get("layout", "C")), ref.copy(), threshold=t, padding=p)
         per1 = np.concatenate([c.correlation_centroid(stack[i:i + 1].copy(), ref.copy(), threshold=t, padding=p) for i in range(n)], axis=1)
         per2 = np.concatenate([c.correlation_centroid(stack[i].copy(), ref.copy(), threshold=t, padding=p) for i in range(n)], axis=1)
         ctx.close(got, per1, max(tol, 1e-9), "correlation_centroid(stack) == per (1,y,x) frame", scale=max(ny, nx) * p, name="corr batch 3d")
